@@ -8,7 +8,7 @@
 From Coq Require Import List ZArith Bool Arith.
 From Mamba Require Import Codec.PruferMulticodeBase Codec.MulticodeModel Codec.PruferModel
   Codec.MulticodeProofs Codec.PruferTree Codec.PruferDecodeProofs Codec.PruferEncodeProofs
-  Codec.PruferProofs.
+  Codec.PruferConnected Codec.PruferProofs.
 Import ListNotations.
 
 (* ------------------------------------------------------------------ Multicode *)
@@ -70,6 +70,29 @@ Theorem C07_prufer_decode_injective : forall c1 c2, valid_code c1 -> valid_code 
   prufer_decode (map Z.of_nat c1) = prufer_decode (map Z.of_nat c2) -> c1 = c2.
 Proof. exact prufer_decode_injective. Qed.
 Print Assumptions C07_prufer_decode_injective.
+
+(* The tree notion in the usual terms.  [connected adj V]: any two vertices of V are joined by
+   a walk inside V; [gm g] is M().  For every simple graph on n >= 1 vertices: tree by leaf
+   elimination <-> connected with n - 1 edges. *)
+Theorem C07_tree_characterisation : forall g, simple g -> gn g >= 1 ->
+  (is_tree g <-> connected (gadj g) (seq 0 (gn g)) /\ gm g = (Z.of_nat (gn g) - 1)%Z).
+Proof. exact is_tree_iff_connected_tree. Qed.
+Print Assumptions C07_tree_characterisation.
+
+(* PruferDecode of every code is connected and has n - 1 edges. *)
+Theorem C07_prufer_decode_connected_tree : forall c, valid_code c ->
+  connected (gadj (code_graph c)) (seq 0 (length c + 2)) /\
+  gm (code_graph c) = (Z.of_nat (length c + 2) - 1)%Z.
+Proof. exact prufer_decode_connected_tree. Qed.
+Print Assumptions C07_prufer_decode_connected_tree.
+
+(* The converse round trip for every connected simple graph with n >= 2 vertices and n - 1 edges. *)
+Theorem C07_prufer_encode_decode_connected : forall g, simple g -> gn g >= 2 ->
+  connected (gadj g) (seq 0 (gn g)) /\ gm g = (Z.of_nat (gn g) - 1)%Z ->
+  exists c, prufer_encode g = Ok (map Z.of_nat c) /\ length c = gn g - 2 /\ valid_code c /\
+            prufer_decode (map Z.of_nat c) = Ok (gn g, tri_bits g).
+Proof. exact prufer_encode_decode_connected. Qed.
+Print Assumptions C07_prufer_encode_decode_connected.
 
 (* ------------------------------------------------------------------ non-vacuity *)
 Definition ex_graph : graph :=   (* the path 2 - 0 - 3 - 1 plus the edge 1 - 4 *)
